@@ -1460,6 +1460,7 @@ func (sc *serverConn) dispatchHandler(strm *Stream) {
 			case sc.handlerDone <- strm:
 				verifTick(verifTickHandlerDone)
 			case <-sc.handlerStop:
+				verifTick(verifTickHandlerGone)
 			}
 		}()
 
